@@ -221,7 +221,7 @@ func boundedIDSource(v ssa.Value) (bool, string) {
 			if b, isB := t.Call.Value.(*ssa.Builtin); isB && b.Name() == "len" {
 				return
 			}
-			if sc := t.Call.StaticCallee(); sc != nil && (sc.Name() == "len" || sc.Name() == "Count" || sc.Name() == "getMessagesWithFlagCount") {
+			if sc := t.Call.StaticCallee(); sc != nil && (engine.ShortName(sc) == "len" || engine.ShortName(sc) == "Count" || engine.ShortName(sc) == "getMessagesWithFlagCount") {
 				return
 			}
 			ok, why = false, "result of "+t.Call.Value.String()
